@@ -395,7 +395,7 @@ def replay_bin(body, line):
 ALL_OP_BODY = {"round": "round", "fi": "convi", "fb": "convi", "fs": "convi", "ff": "xtype", "fl": "flt", "ps": "parse",
                "fm": "fmt", "fr": "fmt", "cd": "codec"}
 for _o in ("neg", "abs", "add", "sub", "mul", "div", "mul_int", "div_int", "add_r", "sub_r", "mul_r", "div_r", "mul_int_r", "div_int_r", "fold",
-           "signum", "npow2"):
+           "signum", "npow2", "signum_t", "npow2_t", "abs_t"):
     ALL_OP_BODY[_o] = "arith"
 for _o in ("rem", "rem_int", "rem_r", "rem_int_r"):
     ALL_OP_BODY[_o] = "rem"
